@@ -4,6 +4,7 @@
 
 pub mod sym;
 pub mod models;
+pub mod spec;
 pub mod props;
 
 pub use sym::{assume, Src};
